@@ -821,7 +821,7 @@ STAKING = {
                       "bal.redelegate,bal.advance,bal.set_withdraw,stake.delegate,stake.undelegate,stake.redelegate,"
                       "stake.advance,stake.withdraw,stake.set_withdraw",
                 need=["undelegate", "slash", "pending_unbonding", "failing_op", "redelegate"]),
-    "C15": dict(quick=["rewards", "quick"], thorough=["rewards", "rewards_deep", "thorough"],
+    "C15": dict(quick=["rewards", "quick", "waddr"], thorough=["rewards", "rewards_deep", "thorough", "waddr"],
                 focus="ok.withdraw,reward,bal.withdraw,panic.withdraw",
                 need=["withdraw", "nonzero_reward_shown", "slash"]),
     "C16": dict(quick=["drift", "quick4", "quick", "unbond0"], thorough=["drift", "thorough", "dust", "unbond0"],
@@ -866,7 +866,8 @@ def check_staking(tier, ev):
     first = True
     for name in c[tier]:
         cfg = f"mc/MC_Staking_{name}.cfg"
-        mc_and_replay(ev, "mc/MC_Staking.tla", cfg, "staking", 3400, ["Delegate", "Undelegate", "Slash", "Advance", "Settle"],
+        must = ["Delegate", "Undelegate", "Advance", "Settle"] + ([] if name == "waddr" else ["Slash"])   # (waddr: withdraw addresses, no slashing)
+        mc_and_replay(ev, "mc/MC_Staking.tla", cfg, "staking", 3400, must,
                       emitting=["Delegate", "Undelegate", "Slash", "Advance"],
                       env={"MTV_FOCUS": c["focus"]}, need_features=c["need"] if first else ())
         first = False
